@@ -1048,7 +1048,7 @@ def c09(R, ctx):
 # ----------------------------------------------------------------------------- C11
 
 
-@runner("C11")
+@runner("C11", level="other")
 def c11(R, ctx):
     C = Cases(R.rng, ctx["tier"])
     cases = C.wellformed(per_type=1, per_cc=1, corpus_n=80)
@@ -1066,6 +1066,9 @@ def c11(R, ctx):
             R.violation(sig, "%s: %s" % (c[1], r[:300]), replay_of(c, "1", r, {"how": "harness/impl_worker.py: objs %s %s" % (c[1], h(c[2]))}))
     R.coverage["conversions_checked"] = ok
     R.coverage["not_accepted"] = na
+    R.coverage["explanation"] = ("events_to_obj/obj_to_events are not modelled: object/event conversions are checked on the implementation "
+                                 "(by-product == rebuilt, both back to the decoded events incl. value classes, re-encoding == input); the decoder's "
+                                 "by-product object is compared with the Coq model's")
     oreqs = ["obj cur %s %s" % (c[1], h(c[2])) for c in cases]
     impl = common.run_impl("impl_worker", oreqs)
     model = common.run_model(oreqs) if ctx["driver_ok"] else impl
@@ -1371,3 +1374,310 @@ def c08(R, ctx):
     bad = correspondence(R, ctx, reqs, impl, model, what="warn mode: events, warnings with all attributes, pull counts, outcome")
     report_disagreements(R, ctx, reqs, impl, model, bad, flagged)
     distribution(R, allc, impl)
+
+
+# ----------------------------------------------------------------------------- C14
+
+
+def c14_oracle(ctx, inp, events, rows):
+    """rows (parsed from the real output) against the events of the same decode"""
+    # expected sequence of (kind, path-name, depth) for struct/prim/warning events; byte buffers fold their elements
+    exp = []
+    i = 0
+    evs = [e for e in events]
+    hexall = ""
+    n = len(evs)
+    while i < n:
+        f = evs[i].split(" ")
+        if f[0] == "W":
+            exp.append(("W",))
+            i += 1
+            continue
+        path = f[1]
+        name = path.rsplit(".", 1)[-1] if path != "/" else ""
+        depth = path.count(".") if path != "/" else 0
+        if f[2].startswith("list:"):
+            if f[2] == "list:BYTE":
+                # fold children
+                j = i + 1
+                buf = ""
+                while j < n:
+                    g = evs[j].split(" ")
+                    if g[0] == "W":
+                        j += 1
+                        continue
+                    cp = g[1]
+                    if cp.rsplit("[", 1)[0] == path and cp.endswith("]") and "." not in cp[len(path):]:
+                        buf += "%02x" % (int(g[3]) & 0xFF)
+                        j += 1
+                    else:
+                        break
+                warns = sum(1 for k in range(i + 1, j) if evs[k].startswith("W"))
+                exp.append(("F", "list[BYTE]", depth, name, buf or "-"))
+                exp += [("W",)] * warns
+                hexall += buf
+                i = j
+                continue
+            exp.append(("L", "list[%s]" % f[2][5:], depth, name))   # optional row
+            i += 1
+            continue
+        if f[3] == "...":
+            exp.append(("F", f[2].replace("enc:", ""), depth, name, "-"))
+        else:
+            w = prim_width(ctx, f[2]) or 0
+            p = ctx["pinned"]["prims"].get(f[2])
+            hx = int(f[3]).to_bytes(w, "big", signed=bool(p and p["signed"])).hex() if w else "-"
+            exp.append(("F", f[2], depth, name, hx))
+            hexall += hx
+        i += 1
+    got = []
+    ghex = ""
+    for r in rows:
+        c = r.split("|")
+        if c[0] == "B":
+            continue
+        if c[0] == "W":
+            got.append(("W",))
+        elif c[0] == "F":
+            got.append(("F", c[1], int(c[2]), c[3], c[4]))
+            if c[4] != "-":
+                ghex += c[4]
+        else:
+            return "unparsable row %r" % r[:60]
+    if ghex != hexall:
+        return "hex column %s... differs from the bytes of the decoded fields %s..." % (ghex[:40], hexall[:40])
+    # match, treating list-parent rows as optional
+    gi = 0
+    for e in exp:
+        if e[0] == "L":
+            if gi < len(got) and got[gi][0] == "F" and got[gi][1] == e[1] and got[gi][2] == e[2] and got[gi][3] == e[3] and got[gi][4] == "-":
+                gi += 1
+            continue
+        if gi >= len(got):
+            return "no row for event %r" % (e,)
+        if got[gi] != e:
+            return "row %r where event %r was expected" % (got[gi], e)
+        gi += 1
+    if gi != len(got):
+        return "extra row %r" % (got[gi],)
+    return None
+
+
+@runner("C14")
+def c14(R, ctx):
+    C = Cases(R.rng, ctx["tier"])
+    base = C.wellformed(per_type=1, per_cc=1, corpus_n=40) + C.streams(n=8)
+    if ctx["tier"] == "quick":
+        base = R.rng.sample(base, min(len(base), 330))
+    strict = list(base)
+    warn = []
+    for b in R.rng.sample(base, min(len(base), 260)):
+        warn += C.size_faults(b, per=1) + C.value_faults(b, per=1)
+    warn += C.arbitrary(n=120)
+    allc = [(c, "1") for c in strict] + [(c, "0") for c in warn]
+    reqs = ["pretty cur %s %s %s" % (m, c[1], h(c[2])) for c, m in allc]
+    impl = common.run_impl("impl_worker", reqs)
+    model = common.run_model(reqs) if ctx["driver_ok"] else impl
+    dreqs = ["dec cur %s %s %s" % (m, c[1], h(c[2])) for c, m in allc]
+    dimpl = common.run_impl("impl_worker", dreqs)
+    flagged = set()
+    attr_rows = 0
+    for k, (c, m) in enumerate(allc):
+        r = impl[k]
+        if r.startswith("CRASH") or r.startswith("EVENTSPRINTER"):
+            flagged.add(k)
+            R.violation("c14:" + r.split(" ")[0].lower() + ":" + r.split(" ")[1], "printing the events of %s (%s mode) failed: %s" % (c[1], "strict" if m == "1" else "warn", r),
+                        replay_of(c, m, r))
+            continue
+        rows = r.split("\x1e") if r else []
+        attr_rows += sum(1 for x in rows if x.startswith("B|"))
+        evs, out = split_result(no_pulled(dimpl[k]))
+        problem = c14_oracle(ctx, c[2], evs, rows)
+        # value column = text form: checked for primitive rows against format() through the model (correspondence)
+        if problem:
+            flagged.add(k)
+            R.violation("c14:" + problem.split(" ")[0] + "-" + problem.split(" ")[1], "%s (%s mode): %s" % (c[1], "strict" if m == "1" else "warn", problem),
+                        replay_of(c, m, dimpl[k], {"rows": rows[:400]}))
+    bad = [k for k in range(len(reqs)) if impl[k] != model[k]]
+    R.coverage.update({"correspondence_cases": len(reqs), "correspondence_disagreements": len(bad),
+                       "correspondence_compares": "every row of the pretty printer: type, indentation, name, hex column, value column (text form / printable bytes), bit rows of attribute words and response codes, warning rows",
+                       "bit_rows_seen": attr_rows})
+    for k in bad:
+        if k not in flagged:
+            ir, mr = impl[k].split("\x1e"), model[k].split("\x1e")
+            pos = next((j for j, (a, b) in enumerate(zip(ir, mr)) if a != b), min(len(ir), len(mr)))
+            R.violation("correspondence:C14", "model and implementation print different rows for `%s` (row %d: impl=%r model=%r)"
+                        % (reqs[k][:160], pos, ir[pos] if pos < len(ir) else None, mr[pos] if pos < len(mr) else None),
+                        {"request": reqs[k], "implementation_rows": ir[:300], "model_rows": mr[:300], "theorem": "correspondence Model/Pretty.v"}, found_input=False)
+            break
+    distribution(R, [c for c, m in allc], dimpl)
+
+
+# ----------------------------------------------------------------------------- C19
+
+
+def run_cli(args, stdin=None, timeout=600):
+    import subprocess
+    env = common.impl_env()
+    p = subprocess.run([common.PY, "-m", "tpmstream"] + args, env=env, cwd=common.WORK, input=stdin,
+                       stdout=subprocess.PIPE, stderr=subprocess.PIPE, timeout=timeout)
+    return p.returncode, p.stdout.decode("utf-8", "replace"), p.stderr.decode("utf-8", "replace")
+
+
+@runner("C19", level="other")
+def c19(R, ctx):
+    import re as _re
+    import tempfile
+    ansi = _re.compile("\x1b\\[[0-9;]*m")
+    C = Cases(R.rng, ctx["tier"])
+    tmp = tempfile.mkdtemp(prefix="c19.", dir=common.WORK)
+    files = []     # (label, fmt_in options, path)
+    try:
+        streams = C.streams(n=3, maxpairs=2)
+        # one malformed stream so that warnings are printed too
+        bad = C.size_faults(("wf", "C", streams[0][3]["parts"][0], {"faults": [("size", 2, 4, "UINT32", len(streams[0][3]["parts"][0]))]}), per=1)
+        for k, s in enumerate(streams):
+            data, parts = s[2], s[3]["parts"]
+            for label, ins, content in (("bin", ["binary", "auto"], data), ("hex", ["hex", "auto"], render_hex(R.rng, data)),
+                                        ("swtpm", ["swtpm-log"], render_swtpm(R.rng, parts))):
+                path = os.path.join(tmp, "%s%d" % (label, k))
+                open(path, "wb").write(content)
+                files.append((label, ins, path))
+        if bad:
+            path = os.path.join(tmp, "badbin")
+            open(path, "wb").write(bad[0][2])
+            files.append(("bin", ["binary"], path))
+        n_runs = 0
+        reqs, meta = [], []
+        for label, ins, path in files:
+            for fi in ins:
+                for fo in (("pretty", "events", "binary") if ctx["tier"] != "quick" else R.rng.sample(["pretty", "events", "binary"], 2)):
+                    reqs.append("cliexp %s %s - - %s" % (fi, fo, path))
+                    meta.append((["convert", "--in", fi, "--out", fo, path], path))
+        # typed decodes
+        typed = C.wellformed(per_type=0, per_cc=0, corpus_n=0)
+        structs = [c for c in C.wellformed(per_type=1, per_cc=0, corpus_n=0) if c[0] == "wf-struct"]
+        for c in R.rng.sample(structs, 4 if ctx["tier"] == "quick" else 25):
+            tname = c[1].split(":")[2]
+            path = os.path.join(tmp, "t_" + tname)
+            open(path, "wb").write(c[2])
+            fo = R.rng.choice(["pretty", "events", "binary"])
+            reqs.append("cliexp binary %s %s - %s" % (fo, tname, path))
+            meta.append((["convert", "--in", "binary", "--out", fo, "--type", tname, path], path))
+        ccnames = {m["v"]: m["name"] for m in ctx["tables"]["prims"]["TPM_CC"]["kind"]["ms"] if m["k"] == "const"}
+        for _ in range(2 if ctx["tier"] == "quick" else 12):
+            c, ci, r, ri = C.G.pair()
+            if ci["rsp_enc"]:
+                continue
+            path = os.path.join(tmp, "rsp_%d" % ci["cc"])
+            open(path, "wb").write(r)
+            reqs.append("cliexp binary pretty Response %s %s" % (ccnames[ci["cc"]], path))
+            meta.append((["convert", "--in", "binary", "--type", "Response", "--command", ccnames[ci["cc"]], path], path))
+        exp = common.run_impl("impl_worker", reqs, nproc=4)
+        for (args, path), e, q in zip(meta, exp, reqs):
+            rc, out, err = run_cli(args)
+            n_runs += 1
+            status, _, body = e.partition("\x1e")
+            want = body.replace("\x1f", "\n")
+            got = ansi.sub("", out)
+            if "--out" in args and args[args.index("--out") + 1] == "binary":
+                got = got.rstrip("\n")
+                want = want.rstrip("\n")
+            if status == "0":
+                if rc != 0 or got != want:
+                    pos = next((j for j, (a, b) in enumerate(zip(got, want)) if a != b), min(len(got), len(want)))
+                    R.violation("c19:convert:" + ("status" if rc != 0 else "output"),
+                                "`tpmstream %s` exits %d and prints something else than the library produces for the same bytes (first difference at character %d: %r vs %r)"
+                                % (" ".join(args[:-1]), rc, pos, got[pos:pos + 40], want[pos:pos + 40]),
+                                {"argv": args, "file_hex": h(open(path, "rb").read()), "stdout": got[:3000], "expected": want[:3000], "stderr": err[-600:]})
+            else:
+                if rc == 0:
+                    R.violation("c19:convert:hides-error", "`tpmstream %s` exits 0 although the library raises %s" % (" ".join(args[:-1]), status),
+                                {"argv": args, "file_hex": h(open(path, "rb").read()), "stdout": got[:2000]})
+        # refusals and the decision logic (model: Model/Cli.v)
+        some = files[0][2]
+        combos = [("i32", "-", "binary"), ("TPM2B_DIGEST", "-", "auto"), ("Response", "-", "binary"), ("Response", "GetRandomm", "binary"),
+                  ("Response", "GetRandom", "binary"), ("-", "-", "auto"), ("TPMS_EMPTY", "-", "binary"), ("Command", "-", "binary"),
+                  ("CommandResponseStream", "-", "auto"), ("response", "GetRandom", "binary"), ("TPM_CC", "Startup", "binary")]
+        mreqs = ["cli %s %s %s" % c for c in combos]
+        mres = common.run_model(mreqs) if ctx["driver_ok"] else None
+        for k, (t, c, f) in enumerate(combos):
+            args = ["convert", "--in", f] + (["--type", t] if t != "-" else []) + (["--command", c] if c != "-" else []) + [some]
+            rc, out, err = run_cli(args)
+            n_runs += 1
+            if "Unknown type" in err or "Unknown commandCode" in err or "requires --command" in err:
+                cls = "REFUSED"
+            elif "RuntimeError" in err and "incompatible" in err:
+                cls = "INCOMPATIBLE"
+            else:
+                cls = "DECODE"
+            if cls == "REFUSED" and (rc == 0 or ("Did you mean" not in err and "requires --command" not in err) or out.strip()):
+                R.violation("c19:refusal", "`tpmstream %s`: refusal must exit non-zero with a suggestion and decode nothing (status %d)" % (" ".join(args[:-1]), rc),
+                            {"argv": args, "stdout": out[:500], "stderr": err[-800:]})
+            if mres is not None and not mres[k].startswith(cls):
+                want_refuse = t != "-" and (t not in ([x for x in ctx["tables"]["structures"]] + ["Command", "Response", "CommandResponseStream"]) or (t == "Response" and (c == "-" or c not in ccnames.values())))
+                if want_refuse != (cls == "REFUSED"):
+                    R.violation("c19:decision", "`tpmstream %s` is %s, the property requires %s" % (" ".join(args[:-1]), cls, "a refusal" if want_refuse else "a decode"),
+                                {"argv": args, "stderr": err[-800:], "model": mres[k]})
+                else:
+                    R.violation("correspondence:C19", "Model/Cli.v says %s for `%s`, the command line does %s" % (mres[k], " ".join(args[:-1]), cls),
+                                {"argv": args, "stderr": err[-800:], "model": mres[k], "theorem": "correspondence Model/Cli.v"}, found_input=False)
+        # `type`
+        tfiles = [f for f in files if f[0] == "bin"][:1 if ctx["tier"] == "quick" else 3]
+        for c in R.rng.sample(structs, 1 if ctx["tier"] == "quick" else 4):
+            path = os.path.join(tmp, "ty_" + c[1].split(":")[2])
+            open(path, "wb").write(c[2])
+            tfiles.append(("bin", ["binary"], path))
+        texp = common.run_impl("impl_worker", ["typeexp binary %s" % f[2] for f in tfiles], nproc=4)
+        for f, e in zip(tfiles, texp):
+            rc, out, err = run_cli(["type", "--in", "binary", f[2]])
+            n_runs += 1
+            got = [l for l in out.split("\n") if l.strip()]
+            want = [x for x in e.split("\x1f") if x]
+            if rc not in (0, None) or got != want:
+                R.violation("c19:type", "`tpmstream type` lists %d entries, strict decoding succeeds under %d types (first difference: %r)"
+                            % (len(got), len(want), sorted(set(got) ^ set(want))[:3]),
+                            {"argv": ["type", "--in", "binary", f[2]], "file_hex": h(open(f[2], "rb").read()), "stdout": got[:100], "expected": want[:100], "stderr": err[-500:]})
+        # `example X`
+        names = R.rng.sample(sorted(ccnames.values()), 2 if ctx["tier"] == "quick" else 20) + (["TPM2B_DIGEST"] if ctx["tier"] == "quick" else ["TPM2B_DIGEST", "TPMT_PUBLIC", "TPMA_SESSION"])
+        blocks_checked = 0
+        for nm in names:
+            rc, out, err = run_cli(["example", nm])
+            n_runs += 1
+            if rc != 0:
+                R.violation("c19:example:status", "`tpmstream example %s` exits %d" % (nm, rc), {"argv": ["example", nm], "stderr": err[-800:]})
+                continue
+            text = ansi.sub("", out)
+            for block in [b for b in text.split("\n\n") if b.strip()]:
+                lines = block.strip("\n").split("\n")
+                head, _, hexs = lines[0].partition(":")
+                data = bytes.fromhex(hexs.replace(" ", ""))
+                blocks_checked += 1
+                if nm in ccnames.values():
+                    cc = [k for k, v in ccnames.items() if v == nm][0]
+                    if head == "Command" and int.from_bytes(data[6:10], "big") != cc:
+                        R.violation("c19:example:filter", "`tpmstream example %s` prints a command with another command code" % nm, {"argv": ["example", nm], "block": block[:600]})
+                    if head not in ("Command", "Response"):
+                        R.violation("c19:example:filter", "`tpmstream example %s` prints a %s" % (nm, head), {"argv": ["example", nm], "block": block[:600]})
+                    root = "C" if head == "Command" else "R:%d:0" % cc
+                else:
+                    if head != nm:
+                        R.violation("c19:example:filter", "`tpmstream example %s` prints a %s" % (nm, head), {"argv": ["example", nm], "block": block[:600]})
+                    root = "T:S:%s" % nm
+                if blocks_checked <= (12 if ctx["tier"] == "quick" else 200):
+                    # each printed example re-decodes to what is shown
+                    pr = common.run_impl("impl_worker", ["pretty cur 0 %s %s" % (root, h(data))])[0]
+                    shown = [l for l in lines[1:] if l.strip()]
+                    n_rows = len([x for x in pr.split("\x1e") if x]) if pr else 0
+                    if pr.startswith("CRASH") or n_rows != len(shown):
+                        # encrypted parameters are shown with the encrypted layout; re-decode cannot know: skip those
+                        if "TPM2B_ENCRYPTED_PARAM" not in block:
+                            R.violation("c19:example:redecode", "`tpmstream example %s`: an example does not re-decode to what is shown (%d rows vs %d lines)" % (nm, n_rows, len(shown)),
+                                        {"argv": ["example", nm], "block": block[:1500], "redecode": pr[:1500]})
+        R.coverage.update({"explanation": "differential runs of `python -m tpmstream` (convert in every input/output format incl. malformed input, --type/--command, refusals, type, example) against in-process library calls on the same files; the refusal decision additionally against the proved Model/Cli.v",
+                           "evaluations": n_runs, "distinct_nontrivial": n_runs, "example_blocks_checked": blocks_checked,
+                           "rule": "one evaluation = one process of the command line; all are distinct invocations",
+                           "samples": [{"argv": meta[0][0]}, {"argv": ["example", names[0]]}]})
+    finally:
+        import shutil
+        shutil.rmtree(tmp, ignore_errors=True)
